@@ -29,10 +29,11 @@ U(id="fib.check_can_resume", **{"class": "full-domain"},
 
 KEEP = {"fiber.c": ["janet_fiber_status"]}
 RUNVM = ["run_vm/fib_run_vm_c", "_setjmp/fib_setjmp_c", "janet_fiber_did_resume/fib_did_resume_c", "janet_tuple_n/fib_tuple_n_c"] + MSG
-U(id="fib.continue_no_check", **{"class": "full-domain"},
+U(id="fib.continue_no_check", **{"class": "full-domain"}, props=["C05", "C19"],
   clause="a resumed fiber moves new/suspended -> alive (the VM is entered only on an ALIVE current fiber without pending child) -> the returned signal: "
          "status on return equals the returned signal; janet_vm.fiber/stackn/return_reg/signal_buf/coerce_error/gc_suspend restored on every path incl. longjmp; "
-         "a child signal the child's mask does not accept is re-raised unchanged and not delivered to this fiber; *out == last_value == return register",
+         "a child signal the child's mask does not accept is re-raised unchanged and not delivered to this fiber; *out == last_value == return register; "
+         "C19: a pending child is continued one recursion level deeper (the walk down a chain of suspended fibers counts against JANET_RECURSION_GUARD)",
   src=["vm.c"], link=["fiber.c"], link_keep=KEEP, harness=["fib_continue.c"], entry="h_no_check", defines=["-DFIB_ENFORCE_NO_CHECK"],
   mode="dfcc", enforce=["janet_continue_no_check/fib_no_check_c"], replace=RUNVM + ["janet_continue/fib_continue_child_c"], checks=CHK, cbmc=CADICAL, object_bits=8,
   functions=["janet_continue_no_check", "janet_try_init", "janet_restore"],
@@ -48,6 +49,7 @@ U(id="fib.continue_no_check", **{"class": "full-domain"},
     {"name": "child-mask-ignored", "file": "vm.c", "find": "        if (sig != JANET_SIGNAL_OK && !(child->flags & (1 << sig))) {\n            *out = in;", "replace": "        if (sig != JANET_SIGNAL_OK && !(fiber->flags & (1 << sig))) {\n            *out = in;", "expect": "postcondition|precondition"},
     {"name": "child-link-kept", "file": "vm.c", "find": "        fiber->child = NULL;\n    }\n\n    /* Handle new fibers", "replace": "    }\n\n    /* Handle new fibers", "expect": "precondition"},
     {"name": "stackn-unbalanced", "file": "vm.c", "find": "        janet_vm.stackn--;\n        if (janet_vm.root_fiber == fiber)", "replace": "        if (janet_vm.root_fiber == fiber)", "expect": "postcondition"},
+    {"name": "child-not-counted", "file": "vm.c", "find": "        janet_vm.stackn++;\n        JanetSignal sig = janet_continue(child, in, &in);\n        janet_vm.stackn--;", "replace": "        JanetSignal sig = janet_continue(child, in, &in);", "expect": "precondition"},
   ])
 
 CHKC = ["janet_check_can_resume/check_can_resume_c", "janet_continue_no_check/fib_no_check_c"]
